@@ -222,6 +222,10 @@ def zipped_in_order(cr, f):
                     c2 = trace_to_call(f, c["args"][0])
                     if c2 is not None and c2["args"]:
                         fld = receiver_field(cr, f, c2["args"][0])
+            elif c is not None and M.norm_path(c["fn"].get("decl", "")) == "std::iter::IntoIterator::into_iter" and c["args"]:
+                fld = receiver_field(cr, f, c["args"][0])
+            elif c is None:
+                fld = receiver_field(cr, f, x)      # `.zip(&call_rule.parameters)`: the collection itself, iterated from its start
             sides.append(fld)
         if sides == ["parameter_names", "parameters"]:
             return True
